@@ -21,7 +21,7 @@ RULE = ('(a) twin worlds: seeded random World histories in which a share of the 
         'construction sources per listed type, custom/empty prefixes, inherited and overridden attributes, '
         'colliding type names, double iteration (freshness).  Non-trivial: a shorthand changed the world / a '
         'prototype yielded >= 1 component; distinct by scenario hash.')
-TAGS = ('cb', 'res', 'ret', 'get', 'row', 'exists', 'has', 'entities', 'procs', 'gp', 'pw', 'ish', 'ctl')
+TAGS = ('cb', 'res', 'ret', 'get', 'getall', 'row', 'exists', 'has', 'entities', 'procs', 'gp', 'pw', 'ish', 'ctl')
 VIA = ['add', 'remove', 'has', 'get', 'comps', 'delete', 'cget', 'cset', 'cdel', 'pget', 'pset', 'pdel']
 
 
